@@ -1083,6 +1083,9 @@ class UTPM(Ring, RawAlgorithmsMixIn):
 
         else:
             xbar, = out
+        if not numpy.iscomplexobj(xbar.data):
+            # the imaginary part of real data is constant (zero): nothing to add
+            return
         if numpy.shares_memory(xbar.data, ybar.data):
             # y is a view of x: ybar is the imaginary part of xbar itself
             xbar.data.imag = -ybar.data
